@@ -228,6 +228,7 @@ Proof.
       apply new_arr_spec in B. destruct B as [B1 _].
       match goal with |- all_complete (put _ _ ?t2) => eapply (complete_of_upd w _ r t2); eauto end.
       cbn [trajs put]. now rewrite (ext_trajs _ _ (ext_trans _ _ _ S1 (ext_trans _ _ _ A1 B1))).
+    + (* reading the cell *) destruct (nth_error (trajs w) r); inversion H; subst; exact Ha.
 Qed.
 
 Lemma init_complete sps : all_complete (init_world sps).
@@ -279,3 +280,8 @@ Lemma half_set_witnesses :
    reg_state w 2 = Some (true, false) /\ reg_state w 3 = Some (true, false) /\
    reg_state w 4 = Some (false, false) /\ reg_state w 5 = Some (false, false)).
 Proof. vm_compute. repeat split; reflexivity. Qed.
+
+(* reading the cell (vectors, volumes, lengths, angles, a periodic distance computation) changes no register: the model
+   keeps no derived cell quantity, so there is nothing that a later single-field assignment could leave stale *)
+Lemma read_cell_pure v w r w' x : step v w (OReadCell r) = (w', x) -> w' = w.
+Proof. cbn [step]. destruct (nth_error (trajs w) r); intros H; inversion H; reflexivity. Qed.
